@@ -17,10 +17,14 @@ BUDGET = {
 ABIS = [("legacy", []), ("spec", ["--config", "js.abi=spec"])]
 
 
+CATALOGUE = -1  # bridge index of the fixed catalogue of delicate shapes (gen.mjs::catalogueSpec)
+
+
 def prepare_bridge(tool, js_dir, work, seed, idx):
     """gen.mjs -> src/lib.rs + desc.json; the real tool -> api/ for both ABIs. Returns [(abi, dir)] and rejected count."""
-    base = os.path.join(work, "b%d" % idx)
-    rc, out, err = run_capture(["node", os.path.join(js_dir, "gen.mjs"), "--seed", str(seed), "--bridge", str(idx), "--out", base])
+    base = os.path.join(work, "b%d" % idx if idx != CATALOGUE else "catalogue")
+    gen_args = ["--catalogue", "1"] if idx == CATALOGUE else ["--seed", str(seed), "--bridge", str(idx)]
+    rc, out, err = run_capture(["node", os.path.join(js_dir, "gen.mjs")] + gen_args + ["--out", base])
     if rc != 0:
         raise HarnessError("gen.mjs failed: %s" % err[-2000:])
     ready, rejected, crashed = [], 0, 0
@@ -63,20 +67,26 @@ def check(tier, seed):
     crashed = sum(p[2] for p in prepared)
     for idx, (ready, _, _) in enumerate(prepared):
         for abi, d in ready:
-            jobs.append((idx, abi, d))
+            jobs.append((idx, abi, d, 0, b["traces"]))
+    # the fixed catalogue bridge gets ten times the schedules of a generated one, split over several processes
+    cat_ready, cat_rej, cat_crash = prepare_bridge(tool, js_dir, work, seed, CATALOGUE)
+    catalogue_status = "ran" if cat_ready else "rejected by the tool on this tree"
+    for abi, d in cat_ready:
+        for part in range(10):
+            jobs.append((CATALOGUE, abi, d, part * b["traces"], (part + 1) * b["traces"]))
     total_gen = b["bridges"] * len(ABIS)
     if rejected * 4 > total_gen:
         raise HarnessError("more than 25%% of the generated bridges were rejected by the tool (%d of %d): the generator is broken" % (rejected, total_gen))
 
     def run_job(job):
-        idx, abi, d = job
-        cmd = ["node", "--expose-gc", os.path.join(js_dir, "gcsim.mjs"), "--dir", d, "--seed", str(seed), "--bridge", str(idx), "--abi", abi, "--from", "0", "--to", str(b["traces"])]
+        idx, abi, d, lo, hi = job
+        cmd = ["node", "--expose-gc", os.path.join(js_dir, "gcsim.mjs"), "--dir", d, "--seed", str(seed), "--bridge", str(idx), "--abi", abi, "--from", str(lo), "--to", str(hi)]
         return job, run_capture(cmd)
     violations, counters, samples = [], {}, []
     totals = {"runs": 0, "distinct_traces": 0, "distinct_nontrivial": 0, "bridges_run": 0}
     transitions = 0
     with ThreadPoolExecutor(max_workers=NCPU) as ex:
-        for (idx, abi, d), (rc, out, err) in ex.map(run_job, jobs):
+        for (idx, abi, d, lo, hi), (rc, out, err) in ex.map(run_job, jobs):
             stats, viols = parse_stats(out)
             if rc == 2 or (rc not in (0, 1)) or stats is None:
                 raise HarnessError("gc-sim harness error on bridge %d/%s (rc=%s)\n%s\n%s" % (idx, abi, rc, out[-1500:], err[-3000:]))
@@ -88,12 +98,12 @@ def check(tier, seed):
             for k, v in stats["counters"].items():
                 counters[k] = counters.get(k, 0) + v
             if stats["samples"] and len(samples) < 3:
-                samples.append({"bridge": idx, "abi": abi, "rust_source": open(os.path.join(work, "b%d" % idx, "src", "lib.rs")).read(), "trace": stats["samples"][0]})
+                samples.append({"bridge": idx, "abi": abi, "rust_source": open(os.path.join(os.path.dirname(d), "src", "lib.rs")).read(), "trace": stats["samples"][0]})
             if rc == 1 and viols and not violations:
                 rep = json.loads(extract_block(out, "REPLAY"))
                 rep["abi"] = abi
-                rep["rust_source"] = open(os.path.join(work, "b%d" % idx, "src", "lib.rs")).read()
-                p = save_replay("C04-gc-%d-b%d-%s.json" % (seed, idx, abi), json.dumps(rep, indent=1))
+                rep["rust_source"] = open(os.path.join(os.path.dirname(d), "src", "lib.rs")).read()
+                p = save_replay("C04-gc-%d-b%s-%s.json" % (seed, "cat" if idx == CATALOGUE else idx, abi), json.dumps(rep, indent=1))
                 violations += [v.replace("replay=-", "replay=" + p) + " abi=" + abi for v in viols]
     if counters.get("probe_lender_unreachable_while_borrower_held", 0) == 0:
         raise HarnessError("the simulation is vacuous: no GC point ever found a lender unreachable while its borrower was held")
@@ -107,7 +117,7 @@ def check(tier, seed):
                  "distinct = FNV-64 of the op list per (bridge, ABI); non-trivial = at least one GC point at which something a held value may borrow from was no longer held by the program (the configuration S1 exists for)."),
         "samples": samples,
         "exhaustive": False,
-        "bridges_generated": b["bridges"], "bridge_abi_pairs_run": totals["bridges_run"], "tool_rejected": rejected, "tool_crashed_on_generated_bridge": crashed,
+        "bridges_generated": b["bridges"], "catalogue_bridge": catalogue_status, "bridge_abi_pairs_run": totals["bridges_run"], "tool_rejected": rejected, "tool_crashed_on_generated_bridge": crashed,
         "distinct_traces": totals["distinct_traces"], "max_distinct_op_transitions_per_bridge": transitions,
         "fault_kinds_fired": {k: v for k, v in counters.items() if k.startswith("fault_")},
         "reach_probes": {k: v for k, v in sorted(counters.items()) if not k.startswith("fault_") and not k.startswith("ops_")},
